@@ -789,7 +789,10 @@ class URL:
         if authority:
             _add('//')
             _add(authority)
-        elif (scheme and path[:2] != '//' and self.uses_netloc):
+        elif (scheme and path[:2] != '//' and self.uses_netloc
+              and (not path or path[:1] == '/')):
+            # (in front of a rootless path the slashes would turn its
+            # first segment into the host)
             _add('//')
         if path:
             if scheme and authority and path[:1] != '/':
